@@ -340,8 +340,29 @@ def restore(payload, obj, reg, scratch):
         r = copy.deepcopy(obj)
         return r, r.units.registry
     if route == "deepcopy_nested":
-        r = copy.deepcopy({"k": [obj, obj]})["k"][1]
-        return r, r.units.registry
+        # the container also holds - FIRST - an object of ANOTHER registry with the same table and another unit system
+        # (built over a fresh dict): one deepcopy call, two registries; each copy keeps its own
+        restore.twin = None
+        try:
+            other = "cgs" if str(getattr(reg.unit_system, "name", "mks")) != "cgs" else "mks"
+            treg = ur.UnitRegistry(lut=dict(reg.lut), add_default_symbols=False, unit_system=other)
+            tu = uo.Unit(obj.units.expr if not isinstance(obj, uo.Unit) else obj.expr, registry=treg)
+            twin = tu if isinstance(obj, uo.Unit) else unyt.unyt_array(np.asarray(obj.d).copy(), tu)
+        except Exception as e:  # noqa: BLE001 - e.g. a unit predating an edit cannot be rebuilt from the table
+            if rw.harness_frame(e.__traceback__):
+                raise
+            twin = None
+        if twin is None:
+            r = copy.deepcopy({"k": [obj, obj]})["k"][1]
+            return r, r.units.registry
+        d = copy.deepcopy({"twin": twin, "k": [obj, obj]})
+        r = d["k"][1]
+        rt_ = d["twin"]
+        rtreg = (rt_ if isinstance(rt_, uo.Unit) else rt_.units).registry
+        rreg = (r if isinstance(r, uo.Unit) else r.units).registry
+        restore.twin = {"same_registry": rtreg is rreg,
+                        "usys": [str(getattr(x.unit_system, "name", x.unit_system)) for x in (reg, rreg, treg, rtreg)]}
+        return r, rreg
     if route == "copy":
         r = copy.copy(obj)
         return r, r.units.registry
@@ -994,6 +1015,16 @@ class Sim11:
         if rw.compare(before, again):
             self.violate("O1-persisting-changed-original", {"route": rt, "differs": rw.compare(before, again)}, [route])
         probe_identity(self, obj, robj)
+        tw = getattr(restore, "twin", None) if route == "deepcopy_nested" else None
+        if tw is not None:
+            self.count("deepcopy_container_with_twin_registry")
+            if tw["same_registry"] or tw["usys"][0] != tw["usys"][1] or tw["usys"][2] != tw["usys"][3]:
+                self.violate("O1-deepcopy-container-couples-registries",
+                             {"route": rt, "twin": tw,
+                              "note": "two objects of two content-equal registries with different unit systems deep-copied "
+                                      "in one container: each copy must keep a registry of its own with its own unit system"},
+                             [route, "same" if tw["same_registry"] else "unit-system"])
+            restore.twin = None
         gen2 = next((o for o in ops if o["k"] == "gen2"), None)
         if gen2 is not None:
             # ---- second generation: persist the RESTORED object again, restore that; O1 against the original
